@@ -23,13 +23,15 @@ def fmt_of(units, pad=""):
     return " ".join(("%" + pad + UNITS[u][1:]) if pad and u in "HMSd" and u != "b" else UNITS[u] for u in units)
 
 
-def run_matrix(tool, pts, with_time, units, pad=""):
-    """ddiff A -f FMT with all points on stdin, for every A: returns {(i, j): raw output line}"""
+def run_matrix(tool, pts, with_time, units, pad="", textfn=None, extra_args=()):
+    """ddiff A -f FMT with all points on stdin, for every A: returns {(i, j): raw output line};
+    textfn(p) writes the operands in another notation (extra_args: the -i format for it)"""
     fmt = fmt_of(units, pad)
-    inp = "".join(text(p, with_time) + "\n" for p in pts)
+    tf = textfn or (lambda p: text(p, with_time))
+    inp = "".join(tf(p) + "\n" for p in pts)
 
     def one(i):
-        p = core.run([tool, text(pts[i], with_time), "-f", fmt], inp=inp, timeout=60)
+        p = core.run([tool] + list(extra_args) + [tf(pts[i]), "-f", fmt], inp=inp, timeout=60)
         return i, p.stdout.splitlines(), p.returncode
     res = {}
     bad = []
